@@ -615,11 +615,19 @@ impl Family for C04Handlers {
 // the subscribers of the inner observables of window_with_count / group_by are subscribers too:
 // a source error reaches every inner observable that is still open, once, with the same payload
 
-pub struct C04Inner;
+pub struct C04Inner {
+  /// false: C04's verdicts (terminals of the inner observables); true: C17's verdict only (after
+  /// the end and with every handle dropped nothing owns the inner subscribers' callbacks)
+  pub release: bool,
+}
 
 impl Family for C04Inner {
   fn name(&self) -> &'static str {
-    "c04-error-reaches-inner-observables"
+    if self.release {
+      "c17-inner-observables-release"
+    } else {
+      "c04-error-reaches-inner-observables"
+    }
   }
   fn threaded(&self) -> bool {
     false
@@ -632,6 +640,9 @@ impl Family for C04Inner {
       ("items", Json::Arr((0..n).map(|i| Json::Int(10 + i + rng.below(2) as i64 * 100)).collect())),
       ("ending", Json::str(*rng.pick(&["error", "error", "error", "complete"]))),
       ("err", Json::Int(rng.below(40) as i64)),
+      // the inner subscriber that receives the k-th item (counted over all inner observables) ends
+      // the source from inside that delivery; -1 = nobody does
+      ("reenter_at", Json::Int(if rng.below(3) == 0 { rng.below(6) as i64 } else { -1 })),
     ])
   }
   fn exec(&self, w: &Json, cfg: RunCfg) -> RunOut {
@@ -645,21 +656,48 @@ impl Family for C04Inner {
     if !["window_with_count", "group_by"].contains(&op.as_str()) || a < 1 || a > 4 || items.len() > 10 || !["error", "complete"].contains(&ending.as_str()) || err < 0 || err > 1000 {
       return RunOut::invalid();
     }
+    let reenter_at = if w.get("reenter_at").is_some() { w.i("reenter_at").clamp(-1, 20) } else { -1 };
+    let master = Token(Arc::new(()));
+    let tok = master.clone();
     let outer = Recorder::new();
     let inners: Arc<Mutex<Vec<Recorder>>> = Arc::new(Mutex::new(Vec::new()));
     let (outer2, inners2, op2, items2, ending2) = (outer.clone(), inners.clone(), op.clone(), items.clone(), ending.clone());
     let res = rxsim_rt::run(cfg, move || {
       let sbj = subjects::Subject::<Val>::new();
+      let seen = Arc::new(Mutex::new(0i64));
+      let (sbj_r, ending_r) = (sbj.clone(), ending2.clone());
+      // every inner recorder gets this hook (and a clone of the counting token)
+      let hook: Arc<dyn Fn(&Ev) + Send + Sync> = Arc::new(move |ev: &Ev| {
+        if let Ev::Next(_) = ev {
+          let k = {
+            let mut n = seen.lock().unwrap();
+            *n += 1;
+            *n - 1
+          };
+          if k == reenter_at {
+            if ending_r == "error" {
+              sbj_r.error(mk_err(err));
+            } else {
+              sbj_r.complete();
+            }
+          }
+        }
+      });
       let o: Observable<'static, Observable<'static, Val>> = if op2 == "window_with_count" { sbj.observable().window_with_count(a as usize) } else { sbj.observable().group_by(move |x: Val| x.int().rem_euclid(a)) };
       let (l1, l2, l3) = (outer2.log.clone(), outer2.log.clone(), outer2.log.clone());
       let inn = inners2.clone();
+      let keep: Arc<Mutex<Vec<Subscription<'static>>>> = Arc::new(Mutex::new(Vec::new()));
+      let keep2 = keep.clone();
       let stamp = |ev: Ev| Rec { seq_in: rxsim_rt::seq(), seq_out: rxsim_rt::seq(), task: 0, t: 0, ev };
       let _sub = o.subscribe(
         move |g: Observable<'static, Val>| {
-          let r = Recorder::new();
+          let mut r = Recorder::new();
+          r.token = Some(tok.clone());
+          r.hook = Some(hook.clone());
           inn.lock().unwrap().push(r.clone());
           let k = inn.lock().unwrap().len() as i64 - 1;
-          std::mem::forget(r.subscribe(&g));
+          let s = r.subscribe(&g);
+          keep.lock().unwrap().push(s);
           l1.lock().unwrap().push(stamp(Ev::Next(Val::Int(k))));
         },
         move |e| l2.lock().unwrap().push(stamp(Ev::Error(err_id(&e)))),
@@ -673,16 +711,28 @@ impl Family for C04Inner {
       } else {
         sbj.complete();
       }
+      // the caller drops its handles (no unsubscribe: the subscriptions have ended by a terminal)
+      keep2.lock().unwrap().clear();
     });
     let mut v = Vec::new();
-    let mut history = vec![format!("{}({}) over items {:?}, then {}", op, a, items, ending)];
+    let mut history = vec![format!("{}({}) over items {:?}, then {}{}", op, a, items, ending, if reenter_at >= 0 { format!(" (signalled from inside the delivery of item #{} if there is one)", reenter_at) } else { String::new() })];
     let want_term = if ending == "error" { Ev::Error(err_id(&mk_err(err))) } else { Ev::Complete };
-    let inners = inners.lock().unwrap().clone();
+    let inners: Vec<Recorder> = std::mem::take(&mut *inners.lock().unwrap());
     history.push(format!("outer: {}", outer.shown()));
     for (k, r) in inners.iter().enumerate() {
       history.push(format!("inner {}: {}", k, r.shown()));
     }
-    if let Some(o) = outcome_violation(&res, &op) {
+    // C17: the run is over, the subject, the observables and the subscriptions are gone; what the
+    // harness still holds are the recorders (their logs are kept, their token clones dropped here)
+    let logs: Vec<Recorder> = inners.iter().map(|r| { let mut c = Recorder::new(); c.log = r.log.clone(); c }).collect();
+    drop(inners);
+    let inners = logs;
+    let live = Arc::strong_count(&master.0) - 1;
+    if self.release {
+      if res.outcome.is_ok() && live > 0 {
+        v.push(Violation::new("tokens-leaked", &op, format!("{}({}) over {:?} ended by {}{}: with every handle dropped, {} owner(s) of the inner subscribers' callbacks are still alive", op, a, items, ending, if reenter_at >= 0 { format!(" from inside the delivery of item #{}", reenter_at) } else { String::new() }, live)));
+      }
+    } else if let Some(o) = outcome_violation(&res, &op) {
       v.push(o);
     } else {
       // (which item goes to which inner observable is C02's business; judged here: every inner
@@ -690,7 +740,8 @@ impl Family for C04Inner {
       // same payload, once - and nothing follows a terminal)
       let show = |x: &[Ev]| x.iter().map(|e| e.show()).collect::<Vec<_>>().join(" ");
       let n_inner_items: usize = inners.iter().map(|r| r.events().iter().filter(|e| matches!(e.ev, Ev::Next(_))).count()).sum();
-      if n_inner_items != items.len() {
+      // (a terminal signalled from inside a delivery cuts the rest of the items off)
+      if n_inner_items != items.len() && (reenter_at < 0 || reenter_at as usize >= items.len()) {
         v.push(Violation::new("inner-differs", &op, format!("{}({}) over {:?}: the inner observables delivered {} items in all", op, a, items, n_inner_items)));
       }
       for (k, r) in inners.iter().enumerate() {
